@@ -968,6 +968,7 @@ var compFiles = func() map[string]string {
 		"components/CompSpaced.vuego": "<template>\n  " + a + "\n  " + b + "\n  " + e + "\n</template>\n",
 		"components/CompBare.vuego":   a + b + e,
 		"components/CompPair.vuego":   `<template>` + a + e + `</template>`,
+		"components/CompLeaf.vuego":   `<p data-m="{{ mk }}">t{{ mk }}</p>`,
 		"components/CompSingle.vuego": `<template><div data-m="{{ mk }}">t{{ mk }}` + a + e + `</div></template>`,
 	}
 }()
